@@ -2,6 +2,7 @@ import OdakProofs.Lemmas.Kernels
 import OdakProofs.Lemmas.PropagateLemmas
 import OdakProofs.Lemmas.NumpyPipelines
 import OdakProofs.Props.C08
+import OdakProofs.Lemmas.GenKernels
 
 /-! # C02 – propagation distances compose: 0 is the identity, −z undoes z, z1 then z2 = z1 + z2 -/
 namespace Odak
@@ -123,5 +124,70 @@ theorem C02_np_tf_step_sequences_compose {n m : Nat} (u : CGrid ℝ n m) (dx lam
     have := ih (npTF u dx lam k z)
     simp only [propagateSeq, List.foldl_cons, List.sum_cons] at this ⊢
     rw [this, C02_np_tf_composes u dx lam k z zs.sum hdx hm]
+
+end Odak
+
+/-! ## The same statements for the kernels REGENERATED from the Python source on this run
+  (`OdakModel/Generated/WaveKernels.lean`, tied to the hand model by `OdakProofs/Lemmas/GenKernels.lean`). -/
+namespace Odak
+open Gen
+
+/-- regenerated kernels: the phase is linear in the distance, `H(z1)·H(z2) = H(z1+z2)` and `H(0) = 1` (torch angular spectrum,
+    torch Fresnel transfer function, and the kernels built inside NumPy `angular_spectrum` / `transfer_function_fresnel`) -/
+theorem C02_gen_kernel_add_zero (n m : Nat) (dx lam k z1 z2 : ℝ) :
+    (CGrid.mul (asKernelT n m dx lam z2) (asKernelT n m dx lam z1) = asKernelT n m dx lam (z1 + z2)) ∧
+    (CGrid.mul (tfKernelT n m dx lam z2) (tfKernelT n m dx lam z1) = tfKernelT n m dx lam (z1 + z2)) ∧
+    (CGrid.mul (asKernelN n m dx lam k z2) (asKernelN n m dx lam k z1) = asKernelN n m dx lam k (z1 + z2)) ∧
+    (CGrid.mul (tfKernelN n m dx lam k z2) (tfKernelN n m dx lam k z1) = tfKernelN n m dx lam k (z1 + z2)) ∧
+    asKernelT n m dx lam 0 = CGrid.const 1 ∧ tfKernelT n m dx lam 0 = CGrid.const 1 ∧
+    asKernelN n m dx lam k 0 = CGrid.const 1 ∧ tfKernelN n m dx lam k 0 = CGrid.const 1 := by
+  simp only [gen_asKernelT_eq, gen_tfKernelT_eq, gen_asKernelN_eq, gen_tfKernelN_eq]
+  obtain ⟨h1, h2, h3, h4, h5, h6⟩ := C02_kernel_add_zero n m dx lam k z1 z2
+  obtain ⟨_, h2', _, _, h5', _⟩ := C02_kernel_add_zero n m dx lam (wavenumber lam) z1 z2
+  exact ⟨h1, h2', h3, h2, h4, h5', h6, h5⟩
+
+/-- z1 then z2 equals one propagation by z1 + z2, distance 0 is the identity and −z undoes z, for the generic pipeline
+    applied to the regenerated kernels -/
+theorem C02_gen_two_steps_compose {n m : Nat} (u : CGrid ℝ n m) (dx lam k z1 z2 : ℝ) :
+    customNoAp (customNoAp u (asKernelT n m dx lam z1)) (asKernelT n m dx lam z2) = customNoAp u (asKernelT n m dx lam (z1 + z2)) ∧
+    customNoAp (customNoAp u (tfKernelT n m dx lam z1)) (tfKernelT n m dx lam z2) = customNoAp u (tfKernelT n m dx lam (z1 + z2)) ∧
+    customNoAp (customNoAp u (asKernelN n m dx lam k z1)) (asKernelN n m dx lam k z2)
+      = customNoAp u (asKernelN n m dx lam k (z1 + z2)) ∧
+    customNoAp u (asKernelT n m dx lam 0) = u ∧ customNoAp u (tfKernelT n m dx lam 0) = u ∧
+    customNoAp u (asKernelN n m dx lam k 0) = u := by
+  obtain ⟨a, b, c, _, a0, b0, c0, _⟩ := C02_gen_kernel_add_zero n m dx lam k z1 z2
+  refine ⟨?_, ?_, ?_, ?_, ?_, ?_⟩
+  · rw [customNoAp_comp, a]
+  · rw [customNoAp_comp, b]
+  · rw [customNoAp_comp, c]
+  · rw [a0]; exact customNoAp_one u
+  · rw [b0]; exact customNoAp_one u
+  · rw [c0]; exact customNoAp_one u
+
+theorem C02_gen_negative_distance_undoes {n m : Nat} (u : CGrid ℝ n m) (dx lam k z : ℝ) :
+    customNoAp (customNoAp u (asKernelT n m dx lam z)) (asKernelT n m dx lam (-z)) = u ∧
+    customNoAp (customNoAp u (tfKernelT n m dx lam z)) (tfKernelT n m dx lam (-z)) = u ∧
+    customNoAp (customNoAp u (asKernelN n m dx lam k z)) (asKernelN n m dx lam k (-z)) = u := by
+  obtain ⟨a, b, c, a0, b0, c0⟩ := C02_gen_two_steps_compose u dx lam k z (-z)
+  rw [add_neg_cancel] at a b c
+  exact ⟨a.trans a0, b.trans b0, c.trans c0⟩
+
+/-- the NumPy Fresnel method (`npTF`, shift-first pipeline) uses exactly the regenerated kernel, so its composition law is a
+    statement about the kernel the source builds now -/
+theorem C02_gen_np_tf_kernel_is_regenerated (n m : Nat) (dx lam k z : ℝ) : tfKernel n m dx lam k z = tfKernelN n m dx lam k z :=
+  (gen_tfKernelN_eq n m dx lam k z).symm
+
+/-- regenerated torch band-limited kernel: on the band both steps pass, the product of the two kernels is
+    `exp(i (z1+z2) κ)` – the angular-spectrum law on the common band -/
+theorem C02_gen_band_limited_composes_on_common_band (n m : Nat) (dx lam z1 z2 : ℝ) (i : Fin n) (j : Fin m)
+    (h1 : blMask n m dx lam z1 i j = true) (h2 : blMask n m dx lam z2 i j = true) :
+    (blKernelT n m dx lam z1).get i j * (blKernelT n m dx lam z2).get i j = Cx.expi (blPhase n m dx lam (z1 + z2) i j) := by
+  rw [gen_blKernelT_eq, gen_blKernelT_eq]
+  exact (C02_band_limited_composes_on_common_band n m dx lam z1 z2 i j h1 h2).2
+
+/-- 'back and forth' with the regenerated kernel -/
+theorem C02_gen_back_and_forth_product (n m : Nat) (dx lam z0 d : ℝ) :
+    CGrid.mul (asKernelT n m dx lam (-(z0 - d))) (asKernelT n m dx lam z0) = asKernelT n m dx lam d := by
+  simp only [gen_asKernelT_eq]; exact C02_back_and_forth_product n m dx lam z0 d
 
 end Odak
